@@ -70,6 +70,16 @@ Fixpoint grun_multi (m : mstats (list Z) Z sres) (ops : list sop)
   | SCompile data :: r => let (m', o) := grun_multi m r in (m', ok_of [(0, [(0, RBad)])] (gen_ms_compile data m) :: o)
   end.
 
+Fixpoint grun_gens (m : mstats (list Z) Z sres) (idname : name) (g : nat)
+         (pops : list (list (name * Z) * list (list Z))) (s : state) : state * list op :=
+  match pops with
+  | [] => (s, [])
+  | (extra, data) :: r =>
+      let o := ORecord (mrec_infos ((idname, Z.of_nat g) :: extra) (ok_of [] (gen_ms_compile data m))) in
+      let (s', ops) := grun_gens m idname (S g) r (fst (gstep s o)) in
+      (s', o :: ops)
+  end.
+
 Definition check_gen (c : case) : bool :=
   match c with
   | CHist uni ops obs fin =>
@@ -85,6 +95,9 @@ Definition check_gen (c : case) : bool :=
       let (m, o) := grun_multi (map (fun kk => (fst kk, new_stats (apply_key (snd kk)))) keys) ops in
       list_eqb mrec_eqb o obs &&
       list_eqb (pair_eqb Z.eqb (list_eqb Z.eqb)) (sort_key (map (fun ns => (fst ns, s_fields (snd ns))) m)) (sort_key fields)
-  | CStatsLog idname keys regs pops fin => true
+  | CStatsLog idname keys regs pops fin =>
+      let (m, _) := grun_multi (map (fun kk => (fst kk, new_stats (apply_key (snd kk)))) keys) regs in
+      let (s, _) := grun_gens m idname 0 pops init_state in
+      lb_eqb (st_lb s) fin
   end.
 Definition check_both (c : case) : bool := check c && check_gen c.
